@@ -113,7 +113,7 @@ class Ctx:
                 zt[k] = self.zones[k]
         self.stats["tlc_runs"] += 1
         tag = "%s-%s-%d-%d" % (self.prop, self.backend, self.i, self.stats["tlc_runs"])
-        res, st = tlcrun.judge(evs, zt, self.workdir, tag)
+        res, st = tlcrun.judge(evs, zt, self.workdir, tag, locales=self.locales_file())
         self.stats["states"] += st["states"]
         self.stats["transitions"] += st["transitions"]
         self.stats["tlc_wall_s"] += st["wall_s"]
@@ -128,6 +128,18 @@ class Ctx:
             elif len(self.samples) < 3 and self.labels[lab] == 1:
                 ev["verdict"] = r
                 self.samples.append(ev)
+
+    def locales_file(self):
+        """locale tables exported from the working tree (specification data for C08 / C18)"""
+        if self.prop not in ("C08", "C18"):
+            return None
+        path = os.path.join(self.workdir, "locales-%s-%d.json" % (self.backend, self.i))
+        if not os.path.exists(path):
+            from . import locales
+
+            with open(path, "w") as f:
+                json.dump(locales.export_all(), f, separators=(",", ":"))
+        return path
 
     def summary(self):
         return {"prop": self.prop, "backend": self.backend, "slice": self.i, "events": self.nevents,
